@@ -51,7 +51,7 @@ theorem C10_removed_exactly {s s' : State} {ev : List Evicted} (t : TtlInv s)
     (s'.store.get? k = none ∨ s'.store.get? k = some e) := by
   obtain ⟨s1, sp, h1, h2, _, _, _⟩ := sweepStep_spec hs
   have hget : s'.store.get? k = if k ∈ ev.map (·.2.1) then none else some e := by
-    rw [h1, sp.store, AMap.get?_delKeys, hk]
+    rw [h1, sp.store t.heldW, AMap.get?_delKeys, hk]
   obtain ⟨wk, hw, hkey⟩ := t.charged hk
   refine ⟨?_, ?_⟩
   · rw [hget]
@@ -86,7 +86,8 @@ theorem C10_removed_exactly {s s' : State} {ev : List Evicted} (t : TtlInv s)
 theorem C10_absent_stays_absent {s s' : State} {ev : List Evicted} (hs : sweepStep s = .ok (s', .swept ev))
     {k : Nat} (hk : s.store.get? k = none) : s'.store.get? k = none := by
   obtain ⟨s1, sp, h1, _⟩ := sweepStep_spec hs
-  rw [h1, sp.store, AMap.get?_delKeys, hk]
+  obtain ⟨ks, _, hks⟩ := sp.storeSub
+  rw [h1, hks, AMap.get?_delKeys, hk]
   simp
 
 /-- **A sweep never removes a live key**: a key without time-to-live, or whose deadline has not passed.  The
